@@ -47,7 +47,8 @@ TStart == /\ Is("Start")
 ConnViolations ==
     LET k == Ev.kind IN
     (IF IdleWorkers = {} THEN {"TOOL.no_idle_worker_in_model"} ELSE {})
-    \cup (IF k = "valid" /\ ~(Ev.answered /\ Ev.status = 200) THEN {"C06.valid_request_not_answered_correctly"} ELSE {})
+    \* same: the answer equals, byte for byte and the timestamp line aside, the one the fresh server gave to this request
+    \cup (IF k = "valid" /\ ~(Ev.answered /\ Ev.status = 200 /\ Ev.same) THEN {"C06.valid_request_not_answered_correctly"} ELSE {})
     \cup (IF k \in {"bad", "internal"} /\ ~Ev.answered THEN {"C06.connection_not_answered"} ELSE {})
 TConn == /\ Is("Conn") /\ nconn < MaxConn
          /\ Judge(ConnViolations, [kind |-> Ev.kind, flavour |-> Ev.flavour, status |-> Ev.status])
